@@ -118,6 +118,35 @@ func (l *c08peerLog) reader(conn *net.UDPConn) {
 	}
 }
 
+// readerUnix: the same log for a unixgram peer that stays (peer kind usilent)
+func (l *c08peerLog) readerUnix(conn *net.UnixConn) {
+	buf := make([]byte, 8192)
+	for {
+		n, _, err := conn.ReadFromUnix(buf)
+		if err != nil {
+			return
+		}
+		now := time.Now()
+		l.mu.Lock()
+		if bytes.Equal(buf[:n], c08Sentinel) {
+			if l.sentinel < 0 {
+				l.sentinel = len(l.dgrams)
+			}
+		} else {
+			l.dgrams = append(l.dgrams, append([]byte{}, buf[:n]...))
+			l.times = append(l.times, now)
+			if len(l.dgrams) == 1 && l.onFirst != nil {
+				l.onFirst()
+			}
+		}
+		l.mu.Unlock()
+		select {
+		case l.notify <- struct{}{}:
+		default:
+		}
+	}
+}
+
 // waitFor blocks until pred holds (checked under the lock), stop is closed, or the timeout expires.
 func (l *c08peerLog) waitFor(pred func() bool, stop <-chan struct{}, timeout time.Duration) bool {
 	deadline := time.NewTimer(timeout)
@@ -219,6 +248,7 @@ type c08scenario struct {
 	peer           string // silent | closed | flood | late | nodial | vanish
 	variant        int    // nodial: which undialable address
 	wrap           bool   // the context is a c08wrapCtx
+	cause          bool   // the context carries a cause other than its Err()
 	k, g, m        int
 	cancel         string // never | pre | predeadline | at | deadline
 	j              int
@@ -366,7 +396,33 @@ func runC08(sc *c08scenario) c08obs {
 	var probe *net.UnixConn
 	var network, addr string
 	var fdAdjust atomic.Int64 // sockets of the baseline that the scenario itself closes during the call (negative)
-	if sc.peer == "vanish" || sc.peer == "deaf" {
+	var upeer, usentinel *net.UnixConn
+	if sc.peer == "usilent" {
+		// a datagram network that is not UDP, with a peer that stays and never answers: everything the property says
+		// about retransmission holds on it as on UDP
+		dir, err := os.MkdirTemp("", "vh-c08-")
+		if err != nil {
+			obs.class = "HARNESS-tmpdir"
+			return obs
+		}
+		defer os.RemoveAll(dir)
+		path := filepath.Join(dir, "p.sock")
+		ua := &net.UnixAddr{Name: path, Net: "unixgram"}
+		ul, err := net.ListenUnixgram("unixgram", ua)
+		if err != nil {
+			obs.class = "HARNESS-listen"
+			return obs
+		}
+		defer ul.Close()
+		upeer = ul
+		c08Go(func() { log.readerUnix(ul) })
+		if usentinel, err = net.DialUnix("unixgram", nil, ua); err != nil {
+			obs.class = "HARNESS-dial"
+			return obs
+		}
+		defer usentinel.Close()
+		network, addr = "unixgram", path
+	} else if sc.peer == "vanish" || sc.peer == "deaf" {
 		dir, err := os.MkdirTemp("", "vh-c08-")
 		if err != nil {
 			obs.class = "HARNESS-tmpdir"
@@ -452,10 +508,22 @@ func runC08(sc *c08scenario) c08obs {
 	var ctx context.Context
 	var cancel context.CancelFunc
 	var ctxCreated time.Time
-	switch sc.cancel {
-	case "predeadline":
+	// flavour `cause`: the context carries a CAUSE of the caller's own (context.WithCancelCause / WithTimeoutCause /
+	// WithDeadlineCause): `ctx.Err()` is still context.Canceled / DeadlineExceeded - "the context's own error" -
+	// while context.Cause(ctx) is something else
+	reason := errors.New("the caller's reason for ending the context")
+	switch {
+	case sc.cause && sc.cancel == "predeadline":
+		ctx, cancel = context.WithDeadlineCause(context.Background(), time.Now().Add(-time.Second), reason)
+	case sc.cause && sc.cancel == "deadline":
+		ctxCreated = time.Now()
+		ctx, cancel = context.WithTimeoutCause(context.Background(), sc.delay, reason)
+	case sc.cause:
+		c2, cc := context.WithCancelCause(context.Background())
+		ctx, cancel = c2, func() { cc(reason) }
+	case sc.cancel == "predeadline":
 		ctx, cancel = context.WithDeadline(context.Background(), time.Now().Add(-time.Second))
-	case "deadline":
+	case sc.cancel == "deadline":
 		ctxCreated = time.Now()
 		ctx, cancel = context.WithTimeout(context.Background(), sc.delay)
 	default:
@@ -545,7 +613,7 @@ func runC08(sc *c08scenario) c08obs {
 			})
 		}
 	}
-	if sc.cancel == "at" && (peer != nil || sc.peer == "vanish" || sc.peer == "deaf") {
+	if sc.cancel == "at" && (peer != nil || upeer != nil || sc.peer == "vanish" || sc.peer == "deaf") {
 		c08Go(func() {
 			// "after the peer received its j-th datagram"; the vanishing peer receives one, and is gone by then
 			pred := func() bool { return len(log.dgrams) >= sc.j }
@@ -586,6 +654,9 @@ func runC08(sc *c08scenario) c08obs {
 	// ordering mark: whatever the peer reads after this datagram was sent after Exchange returned
 	if sentinelConn != nil {
 		sentinelConn.Write(c08Sentinel)
+	}
+	if usentinel != nil {
+		usentinel.Write(c08Sentinel)
 	}
 	close(stop)
 	obs.class = c08Class(r.err)
@@ -675,7 +746,7 @@ func runC08(sc *c08scenario) c08obs {
 		}
 		return obs
 	}
-	if peer == nil {
+	if peer == nil && upeer == nil {
 		if encErr == nil && sc.cancel != "pre" && sc.cancel != "predeadline" {
 			obs.first = "na" // something was written, but nobody is there to see it
 		}
@@ -790,6 +861,8 @@ func parseC08(args []string) *c08scenario {
 		case "std":
 		case "wrap":
 			sc.wrap = true
+		case "cause":
+			sc.cause = true
 		default:
 			panic("bad context flavour")
 		}
@@ -815,7 +888,7 @@ func parseC08(args []string) *c08scenario {
 		if sc.variant < 0 || sc.variant >= len(c08Nodial) {
 			panic("bad peer")
 		}
-	case (sc.peer == "silent" || sc.peer == "closed" || sc.peer == "flood" || sc.peer == "vanish" || sc.peer == "deaf") && len(pf) == 1:
+	case (sc.peer == "silent" || sc.peer == "usilent" || sc.peer == "closed" || sc.peer == "flood" || sc.peer == "vanish" || sc.peer == "deaf") && len(pf) == 1:
 	default:
 		panic("bad peer")
 	}
@@ -865,7 +938,7 @@ func c08Ends(sc *c08scenario) bool {
 		return sc.cancel == "at" && sc.j == 1 // the peer takes one datagram and is gone (deaf: it is gone from the start)
 	case "closed":
 		return true
-	case "silent":
+	case "silent", "usilent":
 		return sc.cancel == "at" && (sc.j <= 1 || ticking)
 	case "flood":
 		return sc.cancel == "at" && sc.j <= 1 || (sc.cancel == "never" && sc.maxErr > 0)
@@ -955,9 +1028,9 @@ func genC08(g *Gen, tier string, emit func(op string, args ...string)) {
 			}
 		}
 		// the flavour of the context: half of the scenarios hand Exchange a user-defined context type
-		flavour := g.pickStr("std", "wrap")
+		flavour := g.pickStr("std", "wrap", "std", "wrap", "cause")
 		for _, o := range opts {
-			if o == "std" || o == "wrap" {
+			if o == "std" || o == "wrap" || o == "cause" {
 				flavour = o
 			}
 		}
@@ -968,7 +1041,7 @@ func genC08(g *Gen, tier string, emit func(op string, args ...string)) {
 	// is sent, nothing is left - every undialable address under both context flavours, live and done contexts
 	for round := 0; round < (rounds+2)/3; round++ {
 		for v := range c08Nodial {
-			for _, fl := range []string{"wrap", "std"} {
+			for _, fl := range []string{"wrap", "std", "cause"} {
 				retry := retries[(round+v)%len(retries)]
 				one(retry, budgets[(round+v)%len(budgets)], "nodial:"+itoa(v), g.pickStr("never", "never", "deadline:"+itoa(g.Pick(1000, 1500, 2000))), fl)
 				if (round+v)%2 == 0 == (fl == "wrap") {
@@ -1008,6 +1081,11 @@ func genC08(g *Gen, tier string, emit func(op string, args ...string)) {
 			// silent peer, cancelled or timed out while waiting
 			one(retry, me, "silent", "at:1:"+itoa(g.Pick(0, 15, 40, 120)))
 			one(retry, me, "silent", "deadline:"+itoa(g.Pick(20, 60, 110)))
+			if retry > 0 && retry <= 20 {
+				// long enough for a dozen intervals: one datagram in all that time is not "at the configured interval"
+				one(retry, me, "usilent", "deadline:"+itoa(18*retry))
+				one(retry, me, "silent", "deadline:"+itoa(18*retry))
+			}
 			if ticking {
 				one(retry, me, "silent", "at:"+itoa(g.Pick(2, 3, 4))+":"+itoa(g.Pick(0, 7)))
 			}
